@@ -12,6 +12,8 @@ import (
 	"os/exec"
 	"path/filepath"
 	"strings"
+
+	"github.com/github/go-spdx/v2/spdxexp/spdxlicenses"
 )
 
 var repoRoot = func() string {
@@ -185,7 +187,7 @@ func init() {
 		case "accept":
 			return c12Accept(cs.Form, cs.ID, cs.Want)
 		default:
-			for _, f := range c12Static() {
+			for _, f := range append(c12Static(), c12Isolation()...) {
 				if f[0] == cs.Kind+":"+cs.ID {
 					return f[1]
 				}
@@ -198,12 +200,49 @@ func init() {
 		Title:    "shipped license tables = SPDX source data",
 		Explorer: "E1 complete enumeration of a finite configuration (every id of both JSON files and of the three Go tables) + real generator re-run",
 		Rule: "state = one id in one role/form; transitions = ValidateLicenses/ExtractLicenses calls on it; the generator is re-run in a scratch copy of the working tree and its three outputs compared byte for byte; " +
-			"JSON-derived sequences compared with GetLicenses/GetDeprecated/GetExceptions; lists checked pairwise disjoint and fold-unique; every license id accepted alone, every exception id accepted after WITH and rejected in 10 other forms; " +
+			"JSON-derived sequences compared with GetLicenses/GetDeprecated/GetExceptions; lists checked pairwise disjoint and fold-unique; every license id accepted alone, every exception id accepted after WITH and rejected in 11 other forms; each table getter called, its result overwritten / filtered in place / appended to, and called again (the tables must not be reachable through what a getter returns); " +
 			"non-trivial = ids checked in the exception-rejection forms and suffix forms (where acceptance is not a plain list lookup)",
 		Assumptions: []string{"encoding/json with the generator's own field names is the reading of the SPDX JSON", "the stale cmd/*_ids.json|txt files are not produced by the current generator and are outside the claim"},
 		Workers:     func(string) int { return 8 },
 		Run:         c12Run,
 	})
+}
+
+// c12Isolation: get a table, write into the returned slice the way callers do (overwrite, in-place
+// filter, append), get it again: the second answer must still be the table.
+func c12Isolation() [][2]string {
+	var out [][2]string
+	getters := []struct {
+		name string
+		get  func() []string
+	}{{"GetLicenses", spdxlicenses.GetLicenses}, {"GetDeprecated", spdxlicenses.GetDeprecated}, {"GetExceptions", spdxlicenses.GetExceptions}}
+	for _, g := range getters {
+		want := append([]string{}, g.get()...)
+		l := g.get()
+		if len(l) > 2 {
+			l[0], l[len(l)-1] = "ZZZ-overwritten", "ZZZ-overwritten"
+			kept := l[:0]
+			for i, id := range l {
+				if i%2 == 0 {
+					kept = append(kept, id)
+				}
+			}
+			_ = append(l[:1], "ZZZ-appended")
+		}
+		got := g.get()
+		if k, m := seqDiff(g.name, want, got); k != "" {
+			out = append(out, [2]string{"isolation:" + g.name, "after a caller wrote into the slice returned by " + g.name + "(), the next call returns a different table: " + m})
+		}
+	}
+	rg := spdxlicenses.LicenseRanges()
+	if len(rg) > 0 && len(rg[0]) > 0 && len(rg[0][0]) > 0 {
+		want := rg[0][0][0]
+		rg[0][0][0] = "ZZZ-overwritten"
+		if got := spdxlicenses.LicenseRanges()[0][0][0]; got != want {
+			out = append(out, [2]string{"isolation:LicenseRanges", "after a caller wrote into the value returned by LicenseRanges(), the next call returns " + got + " instead of " + want})
+		}
+	}
+	return out
 }
 
 // c12Static: JSON-vs-table and disjointness findings (key, message).
@@ -269,10 +308,13 @@ func c12Run(c *Ctx) {
 				return map[string]any{"generator": "go run . extract -l -e (scratch copy)", "files_compared": genFiles}
 			})
 		}
-		for _, f := range c12Static() {
+		for _, f := range append(c12Static(), c12Isolation()...) {
 			parts := strings.SplitN(f[0], ":", 2)
 			c.Report(Violation{Kind: "c12.case", Class: parts[0], Key: f[0], Msg: f[1], Size: 2, Case: mustJSON(c12Case{Kind: parts[0], ID: parts[1]})})
 		}
+		c.Add("states", 4)
+		c.Add("transitions", 8)
+		c.Outcome("getter-isolation")
 		n := int64(len(t.Active) + len(t.Deprecated) + len(t.Exceptions))
 		c.Add("states", n)
 		c.Add("transitions", n)
